@@ -101,6 +101,9 @@ func finalC14(w *World) {
 	if n == 0 {
 		return
 	}
+	if w.siblingC14(n) {
+		return
+	}
 	// default-mode twin
 	twinBE := &Backend{S: s, Log: reflog.New(7002, time.Now().UnixNano()), Name: "twin"}
 	priv, pub := LogKey(w.logKey)
@@ -158,4 +161,75 @@ func finalC14(w *World) {
 			s.Probe("c14.twin-equal")
 		}
 	}
+}
+
+// siblingC14: one process usually serves several logs, and each external-storage log has a chain store of its own
+// (its own connection string) and asks the shipped factory for a cache. A second such log is built here, in the same
+// process, with the same cache options; it receives the same submissions and is then read back entry by entry, with
+// everything healthy. Whatever the first log left behind in state the two might share must not keep the second one
+// from storing and serving its own chains. Returns true when a violation was recorded.
+func (w *World) siblingC14(n int64) bool {
+	s := w.s
+	if w.s.T.Chance(1, 2) {
+		return false
+	}
+	sx := w.newExtState()
+	sx.store.IgnoresCtx = false
+	defer func() {
+		if sx.real != w.x.real {
+			sx.stop()
+		}
+	}()
+	sibBE := &Backend{S: s, Log: reflog.New(7004, time.Now().UnixNano()), Name: "sibx"}
+	sk := w.logKey
+	priv, pub := LogKey(sk)
+	cfg := &configpb.LogConfig{LogId: 7004, Prefix: "sim", RootsPemFile: []string{w.rootsFile}, PrivateKey: priv, PublicKey: pub}
+	inst, err := NewInstance(InstanceParams{Cfg: cfg, Backend: sibBE, Deadline: time.Minute, Store: sx.store, Cache: sx.cache})
+	if err != nil {
+		s.Violate("harness", "sibling", "cannot build the sibling external-storage log: %v", err)
+		return true
+	}
+	saveReps, saveBE, saveX, saveSubs := w.reps, w.be, w.x, w.subs
+	w.reps, w.be, w.x = []*replica{{inst: inst}}, sibBE, sx
+	defer func() { w.reps, w.be, w.x, w.subs = saveReps, saveBE, saveX, saveSubs }()
+	fed := 0
+	for i := int64(0); i < n; i++ {
+		if saveX.foreignAt(i) != "" {
+			continue
+		}
+		sub := saveBE.Creator[string(saveBE.Log.Seq[i].Identity)]
+		if sub == nil {
+			continue
+		}
+		op := w.newOp("sibling-add")
+		op.Replica = 0
+		op.Method, op.Path, op.Body, op.Sub = "POST", sub.Path(), sub.Body(), sub
+		w.do(op)
+		if s.Violated() {
+			return true
+		}
+		if op.Status != 200 {
+			s.Violate("clean-submit-failed", "sibling-log", "a second external-storage log of the same process (own chain store, cache from the shipped factory) refused sub%d with everything healthy: %d %s", sub.ID, op.Status, firstLine(op.RespBody))
+			return true
+		}
+		fed++
+	}
+	sibBE.Sequence(-1, false)
+	for i := int64(0); i < int64(sibBE.Log.RootSize); i++ {
+		op := w.auditGet("get-entries", "/ct/v1/get-entries", q("start", i64(i), "end", i64(i)), i, i, nil)
+		if s.Violated() {
+			return true
+		}
+		if op.Status != 200 {
+			s.Violate("liveness", "get-entries/sibling-log", "a second external-storage log of the same process (own chain store, cache from the shipped factory): get-entries(%d,%d) answered %d with everything healthy: %s", i, i, op.Status, firstLine(op.RespBody))
+			return true
+		}
+		if w.checkEntriesBytes(op) == nil {
+			return true
+		}
+	}
+	if fed > 0 {
+		s.Probe("c14.sibling-log-served")
+	}
+	return false
 }
